@@ -648,6 +648,8 @@ class PureScheduler:                                    # pylint: disable=r0902
         """
         for job in self.jobs:
             job._task = None                            # pylint: disable=W0212
+            # otherwise is_running() is True on a job that is idle again
+            job._running = False                        # pylint: disable=W0212
 
     def _backlinks(self):
         """
